@@ -236,6 +236,8 @@ def _run_unit(args, box=None):
                 res["engine_faults"].append(
                     {"inputs": H.jsonable(cex.inputs), "label": cex.label, "note": "solver model does not reproduce on the real package", "err": err}
                 )
+        if eng.partial and not res["violations"] and not res["engine_faults"]:
+            res["inconclusive"] = f"hunt mode: {eng.partial} has no model; its symbolic arguments were pinned to palette values, no violation found there, the other values are not covered"
         for inp in eng.timeouts[:3]:
             if inp is not None and _confirm_hang(mod_name, unit, inp):
                 res["violations"].append({"sig": "call-does-not-return", "label": "call-does-not-return", "detail": None, "inputs": H.jsonable(inp), "confirmed": True, "via": "watchdog+subprocess"})
